@@ -5,6 +5,7 @@ package types
 /*@
 immutable TimeSlot: Start, End
 immutable_cells time.Time
+immutable Quantifier: Min, Max
 
 func (TimeSlot).Contains
   props C01 C02 C08
